@@ -1,4 +1,5 @@
 import FuraxProofs.Props.C11
+import FuraxProofs.Props.C11Closed
 #print axioms Furax.C11.multiplies_along_axes
 #print axioms Furax.C11.broadcasts_unit_dimensions
 #print axioms Furax.C11.scalar_axis_forms
@@ -8,3 +9,14 @@ import FuraxProofs.Props.C11
 #print axioms Furax.C11.only_value_errors
 #print axioms Furax.C11.pinv_moore_penrose
 #print axioms Furax.C11.pinv_of_zero_is_zero
+#print axioms Furax.C11.diagonal_leaf_facts
+#print axioms Furax.C11.diagonal_entry_closed
+#print axioms Furax.C11.diagonal_structure_closed
+#print axioms Furax.C11.diagonal_one_vector
+#print axioms Furax.C11.diagInv_closed
+#print axioms Furax.C11.diagInv_entry_closed
+#print axioms Furax.C11.diagInv_values
+#print axioms Furax.C11.moore_penrose_closed
+#print axioms Furax.C11.diagInv_inverse_closed
+#print axioms Furax.C11.broadcastDiagonal_entry_closed
+#print axioms Furax.C11.ClosedExamples.haxes_needed
